@@ -432,6 +432,34 @@ func (c *Ctx) corpusC02() {
 	c.Note("corpus:split-short-ranges:" + r.status)
 }
 
+// branchingHistories: results are validated when they are returned AND again after later derivations from the same base
+func (c *Ctx) branchingHistories(n int) {
+	for i := 0; i < n; i++ {
+		c.guardSeq("c02.holds.wf", func() {
+			b := c.genBranchCase()
+			c.wf("branch:base", b.base)
+			c.wf("branch:x", b.x)
+			c.wf("branch:y", b.y)
+			// re-evaluation after y was derived: the oracle on x and base again, and the model against the LATE read of x
+			c.wf("branch:x-after-y", b.x)
+			c.wf("branch:base-after-y", b.base)
+			c.Emit("c02.op.append", b.baseS+" "+b.pS, guardMesh(func() string { return shapeStr(b.x) }))
+			c.Emit("c02.op.append", b.baseS+" "+b.qS, guardMesh(func() string { return shapeStr(b.y) }))
+			// a third derivation and operations on the earlier results
+			z := b.base.Append(b.x)
+			c.wf("branch:z", z)
+			c.wf("branch:x-after-z", b.x)
+			for _, name := range []string{"split", "removeunref", "unweld"} {
+				r := c.applyOp(name, b.x)
+				c.Emit("c02.op."+r.name, r.args, r.answer(shapeStr))
+				for _, o := range r.out {
+					c.wf("branch:"+name+"(x)", o)
+				}
+			}
+		})
+	}
+}
+
 func runC02(c *Ctx) {
 	log.SetOutput(io.Discard)
 	c.corpusC02()
@@ -478,6 +506,13 @@ func runC02(c *Ctx) {
 			c.extrudeShapeCase(pl, sd, i%3 == 0)
 		}
 	}
+	c.emptyAppends(func(r opRun, recv modeling.Mesh) {
+		c.Emit("c02.op.append", r.args, r.answer(shapeStr))
+		for _, o := range r.out {
+			c.wf("append-empty", o)
+		}
+	})
+	c.branchingHistories(10 + c.N/8)
 	c.extrudeEntryPoints(6 + c.N/20)
 	c.nodeEntryPoints(4 + c.N/40)
 	c.opSequences(c.N)
